@@ -3,6 +3,7 @@ package sym
 import (
 	"encoding/hex"
 	"fmt"
+	"strconv"
 	"go/types"
 	"net/textproto"
 	"sort"
@@ -364,6 +365,76 @@ func registerNatives(e *Engine) {
 			panic(pathEnd{kind: endPanic})
 		}
 		return ex.c64(uint64(sz))
+	}
+	n["errors.As"] = func(ex *Exec, site ssa.Instruction, args []Value) Value {
+		return ex.errorsAs(args[0], args[1])
+	}
+	n["errors.Unwrap"] = func(ex *Exec, site ssa.Instruction, args []Value) Value {
+		iv, _ := args[0].(*Iface)
+		if iv == nil {
+			return (*Iface)(nil)
+		}
+		ws := ex.wrapsOf(iv)
+		if len(ws) == 1 && ex.isSingleWrap(iv) {
+			return ws[0]
+		}
+		return (*Iface)(nil)
+	}
+	n["errors.Is"] = func(ex *Exec, site ssa.Instruction, args []Value) Value {
+		var walk func(e *Iface, depth int) *smt.Term
+		target, _ := args[1].(*Iface)
+		walk = func(e *Iface, depth int) *smt.Term {
+			if e == nil || depth > 10 {
+				return ex.tb().Bool(e == nil && target == nil)
+			}
+			r := ex.ifaceEq(e, target)
+			for _, w := range ex.wrapsOf(e) {
+				wi, _ := w.(*Iface)
+				r = ex.tb().Or(r, walk(wi, depth+1))
+			}
+			return r
+		}
+		e, _ := args[0].(*Iface)
+		return walk(e, 0)
+	}
+	// concrete-string helpers (flag and path handling of the check tool)
+	conc := func(ex *Exec, v Value, what string) string {
+		s, ok := v.(*Str)
+		if !ok || s.K != strConc {
+			ex.fail("%s needs a concrete string", what)
+		}
+		return s.C
+	}
+	n["strings.HasPrefix"] = func(ex *Exec, site ssa.Instruction, args []Value) Value {
+		return ex.tb().Bool(strings.HasPrefix(conc(ex, args[0], "strings.HasPrefix"), conc(ex, args[1], "strings.HasPrefix")))
+	}
+	n["strings.HasSuffix"] = func(ex *Exec, site ssa.Instruction, args []Value) Value {
+		return ex.tb().Bool(strings.HasSuffix(conc(ex, args[0], "strings.HasSuffix"), conc(ex, args[1], "strings.HasSuffix")))
+	}
+	n["strings.ToLower"] = func(ex *Exec, site ssa.Instruction, args []Value) Value {
+		return ex.concStr(strings.ToLower(conc(ex, args[0], "strings.ToLower")))
+	}
+	n["strings.TrimSpace"] = func(ex *Exec, site ssa.Instruction, args []Value) Value {
+		return ex.concStr(strings.TrimSpace(conc(ex, args[0], "strings.TrimSpace")))
+	}
+	n["strings.Split"] = func(ex *Exec, site ssa.Instruction, args []Value) Value {
+		parts := strings.Split(conc(ex, args[0], "strings.Split"), conc(ex, args[1], "strings.Split"))
+		ex.objSeq++
+		v := &Vec{ID: ex.objSeq}
+		st := site.(ssa.Value).Type().Underlying().(*types.Slice).Elem()
+		for _, p := range parts {
+			v.Elems = append(v.Elems, ex.newObj(st, ex.concStr(p)))
+		}
+		return &GSlice{Vec: v, Len: len(parts), Cap: len(parts)}
+	}
+	n["strconv.ParseUint"] = func(ex *Exec, site ssa.Instruction, args []Value) Value {
+		s := conc(ex, args[0], "strconv.ParseUint")
+		base, bits := int(ex.term(args[1]).Int64()), int(ex.term(args[2]).Int64())
+		v, err := strconv.ParseUint(s, base, bits)
+		if err != nil {
+			return Tuple{ex.c64(v), ex.opaqueError("strconv.ParseUint")}
+		}
+		return Tuple{ex.c64(v), (*Iface)(nil)}
 	}
 	n["time.Now"] = func(ex *Exec, site ssa.Instruction, args []Value) Value {
 		ex.fail("UNMODELLED callee time.Now (harness must supply a clock model)")
@@ -925,4 +996,79 @@ func (ex *Exec) deepEqual(a, b Value) *smt.Term {
 	}
 	ex.fail("reflect.DeepEqual on %T", a)
 	return nil
+}
+
+
+// wrapsOf lists the errors an error value wraps (fmt.Errorf %w, multierr).
+func (ex *Exec) wrapsOf(e *Iface) []Value {
+	p, ok := e.V.(Ptr)
+	if !ok || p.Obj == nil || p.Obj.Ghost == nil {
+		return nil
+	}
+	var out []Value
+	for i := 0; ; i++ {
+		w, ok := p.Obj.Ghost[fmt.Sprintf("wrap%d", i)]
+		if !ok {
+			break
+		}
+		out = append(out, w)
+	}
+	return out
+}
+
+func (ex *Exec) isSingleWrap(e *Iface) bool {
+	p, ok := e.V.(Ptr)
+	return ok && p.Obj != nil && strings.HasPrefix(p.Obj.Name, "error(fmt.Errorf")
+}
+
+// errorsAs models errors.As over the engine's error values.
+func (ex *Exec) errorsAs(errV, targetV Value) Value {
+	tb := ex.tb()
+	ti, _ := targetV.(*Iface)
+	if ti == nil {
+		ex.oblige("panic", "", tb.True(), "errors: target cannot be nil")
+		panic(pathEnd{kind: endPanic})
+	}
+	tp, ok := ti.V.(Ptr)
+	pt, isPtr := ti.Typ.Underlying().(*types.Pointer)
+	if !ok || !isPtr || tp.Obj == nil {
+		ex.oblige("panic", "", tb.True(), "errors: target must be a non-nil pointer")
+		panic(pathEnd{kind: endPanic})
+	}
+	want := pt.Elem()
+	var walk func(e *Iface, depth int) bool
+	walk = func(e *Iface, depth int) bool {
+		if e == nil || depth > 16 {
+			return false
+		}
+		if e.NilC != nil {
+			if ex.branch(e.NilC, nil) {
+				return false
+			}
+			e = &Iface{Typ: e.Typ, V: e.V}
+		}
+		match := false
+		if types.IsInterface(want) {
+			match = types.Implements(e.Typ, want.Underlying().(*types.Interface))
+		} else {
+			match = types.Identical(e.Typ, want)
+		}
+		if match {
+			if types.IsInterface(want) {
+				ex.store(tp, e)
+			} else {
+				ex.store(tp, e.V)
+			}
+			return true
+		}
+		for _, w := range ex.wrapsOf(e) {
+			wi, _ := w.(*Iface)
+			if walk(wi, depth+1) {
+				return true
+			}
+		}
+		return false
+	}
+	e, _ := errV.(*Iface)
+	return tb.Bool(walk(e, 0))
 }
